@@ -229,6 +229,18 @@ def compiled_calls_guarded(ctx):
         rows_[0]['replay'] = dict(result=r)
         if r.get('confirmed'):
             rows_[0]['detail'] += f" | real code: {r.get('detail')}"
+        elif calls >= 3 and guarded == calls:
+            # every call site is still guarded and only the guard's BODY is not the tabulated text: the structural test cannot tell a
+            # harmless rewrite from a wider admission.  The real guard on a battery of value kinds (bounded): something else admitted is a
+            # violation with that value; nothing else admitted leaves the obligation UNDECIDED (exit 2), never a violation
+            r2 = run_replay(rp5.replay_guard_kinds, {}, rows_[0]['name'], timeout_s=60)
+            if r2.get('confirmed'):
+                rows_[0]['confirmed'] = True
+                rows_[0]['replay'] = dict(result=r2)
+                rows_[0]['detail'] += f" | real code: {r2.get('detail')}"
+            elif r2.get('battery'):
+                rows_[0]['undecided'] = True
+                rows_[0]['detail'] += f" | the guard's body is not in the tabulated form; {r2.get('detail')} (bounded battery) and the rebinding replay agrees: undecided"
     return rows_
 compiled_calls_guarded.__name__ = 'compiled-calls-guarded'
 
